@@ -34,10 +34,11 @@ EXTENDS Integers, Sequences, FiniteSets, Bytes, TLC
 (* with L = ceil(log2 n).  RepeatBudget(n, b) = k-1 for the least k with                 *)
 (* k(b - 2L) >= 72:  P(reps > budget) <= 2^-72 per field and history length, hence       *)
 (* <= 2^-72 * 2^13 * 2^9 = 2^-50 per run.  E.g. a 12-byte IV (b = 96) never repeats      *)
-(* within 4096 calls (budget 0); a 7-byte streaming nonce prefix may repeat once; the    *)
-(* 8192 key ids of DIFFERENT managers (b = 32) may coincide 11 times.  A fixed value, a  *)
-(* counter restarted per instance/process or a constant-seeded generator repeat          *)
-(* hundreds of times.                                                                    *)
+(* within 4096 calls (budget 0); an 8-byte X-AES salt may repeat once, a 7-byte          *)
+(* streaming nonce prefix twice; the 4096 key ids drawn by DIFFERENT managers (b = 32)   *)
+(* may coincide 8 times (the ids of ONE manager never: strict).  A fixed value, a         *)
+(* counter restarted per instance/process or a constant-seeded generator repeat           *)
+(* hundreds of times.                                                                     *)
 Log2Ceil(n) == CHOOSE L \in 0..30 : 2^L >= n /\ (L = 0 \/ 2^(L - 1) < n)
 Slack == 72
 RepeatBudget(n, bits) ==
